@@ -49,21 +49,28 @@ Qed.
    registry is the original's *)
 Lemma clone_md_same md r :
   md_rounds md = [r] -> NoDup r -> md_erounds md = 1 -> clone_md md = md.
-Proof.
-  intros Hr N E. unfold clone_md, with_erounds, with_rounds. simpl. rewrite Hr. simpl. rewrite app_nil_r.
-  rewrite uniq_nodup_id by (auto; intros x _ []). destruct md; simpl in *; subst. reflexivity.
-Qed.
+Proof. intros _ _ _. reflexivity. Qed.
+
+(* whatever the rounds: the clone replays the registration rounds of its original *)
+Lemma clone_md_id md : clone_md md = md.
+Proof. reflexivity. Qed.
 
 (* hence: cloning such a machine at any idle point and going on with the clone gives exactly the
    observations of going on with the original, for every suffix *)
+Theorem clone_then_suffix_equals_suffix_any_rounds beh md f c s ops :
+  rm_rtc (resolve md) = true -> rm_async (resolve md) = false ->
+  idle c -> depth c = 0 -> field c = Some s -> log c = [] -> amb c = false -> ambc c = false ->
+  tl (run_ops beh md (S f) (OClone :: ops) c) = run_ops beh md (S f) ops c.
+Proof.
+  intros R A I D F Lg A1 A2.
+  assert (CL : clear_log c = c) by (destruct c; simpl in *; subst; reflexivity).
+  cbn [run_ops]. unfold run_op at 1. rewrite CL, (clone_md_id md).
+  rewrite (clone_keeps_configuration beh (resolve md) f c s R A I D F). simpl. reflexivity.
+Qed.
+
 Theorem clone_then_suffix_equals_suffix beh md r f c s ops :
   md_rounds md = [r] -> NoDup r -> md_erounds md = 1 ->
   rm_rtc (resolve md) = true -> rm_async (resolve md) = false ->
   idle c -> depth c = 0 -> field c = Some s -> log c = [] -> amb c = false -> ambc c = false ->
   tl (run_ops beh md (S f) (OClone :: ops) c) = run_ops beh md (S f) ops c.
-Proof.
-  intros Hr N E R A I D F Lg A1 A2.
-  assert (CL : clear_log c = c) by (destruct c; simpl in *; subst; reflexivity).
-  cbn [run_ops]. unfold run_op at 1. rewrite CL, (clone_md_same md r Hr N E).
-  rewrite (clone_keeps_configuration beh (resolve md) f c s R A I D F). simpl. reflexivity.
-Qed.
+Proof. intros _ _ _. apply clone_then_suffix_equals_suffix_any_rounds. Qed.
